@@ -5,6 +5,13 @@ Contract checked at run time on the REAL functions (clause ids):
   Q2 (app)   QUERY_STRING = enc(pairs)  ->  Request.query  == fold(pairs)   (and Request.GET)
   Q3 (app)   urlencoded body = enc(pairs) -> Request.forms / Request.POST == fold(pairs)
   Q4 (app)   Request.params == fold(query pairs) united with fold(body pairs) when the key sets are disjoint
+  Q5 (hist)  histories on one Request (inside a handler of a served application, and on a bare Request(environ)): the
+             environ starts WITHOUT a QUERY_STRING key (PEP 3333 allows that for an empty query), with an empty one or with
+             enc(pairs); then request['QUERY_STRING'] = enc(other pairs) / '' / del request['QUERY_STRING'] are applied, with
+             and without a read of query / GET / params before each step.  Every read must equal fold(the pairs the request
+             carries at that moment) -- never the pairs of an earlier moment.
+  Q6 (hist)  the same for the urlencoded body: request['wsgi.input'] (and CONTENT_LENGTH) replaced after / before forms,
+             POST, params were read; every read == fold(the body pairs the request carries at that moment).
   T1 (unit)  parse_qsl(s) returns (does not raise, does not hang) for every string s; result is a list of
              (str, str) pairs.   T2: the same through Request.query / Request.forms for arbitrary text/bytes.
 fold(pairs): key -> the value (str) if the key occurs once, else the list of its values in submission order.
@@ -20,6 +27,11 @@ BOUND = ('pairs: every sequence of <=3 (quick) / <=5 (thorough) pairs over 3 key
          'and every single pair over a 22-string pool of awkward texts (separators = & + % ; # space, "é", "€", astral, '
          'percent-lookalikes "%41", "%", "%zz") for key and value; seeded random lists of <=6 pairs over the pool; '
          'x 4 encoder spellings x {parse_qsl plain, append=, setitem=, Request.query, Request.forms/POST, params}. '
+         'Histories (Q5/Q6): start environ {no QUERY_STRING key, empty, pairs} x every sequence of <=2 (thorough <=3) steps from '
+         '{assign pairs P1, assign pairs P2, assign "", del} x every choice of reading or not reading before each step x read of '
+         '{query+GET, params, all} x {handler of a served app, bare Request(environ)}; the same for the body with steps '
+         '{replace wsgi.input by P1, P2 (different length), P2 padded to equal length, empty} from {no body, empty body, pairs} '
+         'under Content-Length and chunked framing. '
          'Totality: ALL strings of length <=7 (quick) / <=9 (thorough) over {a,=,&,%,+,2} (exhaustive) and seeded random '
          'Unicode / byte strings through parse_qsl, Request.query and Request.forms')
 NONTRIVIAL_RULE = ('distinct (kind, pairs, encoder) or (totality prefix); non-trivial = at least one pair, or a totality '
@@ -153,6 +165,9 @@ def gen_cases(tier, seed):
         if rnd.random() < 0.5 and pairs:
             pairs.append([pairs[0][0], _rand_text(rnd, 0, 3)])
         yield dict(kind=rnd.choice(['unit', 'query', 'form']), pairs=pairs, enc=rnd.choice(ENCODERS))
+    # (g) histories: the query string / the body is changed on the request after (or before) it was looked at
+    for c in gen_histories(tier):
+        yield c
     # (e) totality, exhaustive over the alphabet, in blocks sharing a prefix
     maxlen = 7 if quick else 9
     plen = 2 if quick else 3
@@ -165,6 +180,36 @@ def gen_cases(tier, seed):
     for _ in range(150 if quick else 2000):
         yield dict(kind='rawbody', raw=bytes(rnd.choice(b'a=&%+2\xc3\xa9\xff\x00 ;') if rnd.random() < 0.8 else rnd.randrange(256)
                                              for _ in range(rnd.randrange(0, 24))))
+
+
+QSETS = {'P1': [['a', '1'], ['b', 'x y'], ['a', '']], 'P2': [['ключ', 'a&b=c+d'], ['k', '100%']], 'E': []}
+BSETS = {'P1': [['Ba', '1'], ['Bb', 'x+y'], ['Ba', 'é']], 'P2': [['Bk', '%41'], ['B ', '=']], 'E': []}
+QSTEPS = [['setq', 'P1'], ['setq', 'P2'], ['setq', 'E'], ['delq']]
+BSTEPS = [['setb', 'P1'], ['setb', 'P2'], ['setb', 'E']]
+
+
+def gen_histories(tier):
+    quick = tier == 'quick'
+    maxn = 2 if quick else 3
+    i = 0
+    for what, steps, sets in (('hq', QSTEPS, QSETS), ('hb', BSTEPS, BSETS)):
+        for start in (None, 'E', 'P2', 'P1'):            # None: the key (the body) is absent from the environ
+            for n in range(1, maxn + 1):
+                for seq in itertools.product(steps, repeat=n):
+                    for mask in range(2 ** n):
+                        ops = []
+                        for j, st in enumerate(seq):
+                            if mask >> j & 1:
+                                ops.append(['read'])
+                            ops.append([st[0]] + ([sets[st[1]]] if len(st) > 1 else []))
+                        ops.append(['read'])
+                        for reads in ('own', 'params', 'all'):
+                            for level in ('app', 'bare'):
+                                for framing in (('cl',) if what == 'hq' else ('cl', 'chunked')):
+                                    i += 1
+                                    yield dict(kind=what, level=level, start=None if start is None else sets[start], ops=ops,
+                                               reads=reads, framing=framing, enc=ENCODERS[i % 4],
+                                               other=(BSETS if what == 'hq' else QSETS)[('P1', 'E', 'P2')[i % 3]])
 
 
 def _rand_text(rnd, lo, hi):
@@ -249,6 +294,9 @@ def run_case(case):
                 raise
             return fail('T1.raised', qs=cur, exc=repr(e))
         return None
+
+    if kind in ('hq', 'hb'):
+        return run_history(case)
 
     if kind in ('rawtext', 'rawbody'):
         raw = case['raw']
@@ -409,6 +457,108 @@ def run_case(case):
             return fail('T1.hang', qs=qs, where=kind)
         raise
     raise ValueError('unknown kind %r' % kind)
+
+
+def _framed(data, framing):
+    from bounded.common import FragStream, chunk_encode
+    if framing == 'chunked':
+        return FragStream(chunk_encode([data[:3], data[3:]] if len(data) > 3 else ([data] if data else [])))
+    return FragStream(data)
+
+
+def run_history(case):
+    """Q5 / Q6: what the request carries NOW is what query / forms / params show, whatever was read before"""
+    import ombott
+    from ombott.request_pkg import Request
+    what, enc, framing = case['kind'], case['enc'], case['framing']
+    start = case['start']
+    other = _pairs(case, 'other')
+    clause = 'Q5' if what == 'hq' else 'Q6'
+    if what == 'hq':
+        q0, b0 = start, other
+    else:
+        q0, b0 = other, start
+    chunked = framing == 'chunked'
+    if b0 is None:
+        env = make_environ('/h', 'POST', content_length=None)
+    else:
+        data = encode([tuple(p) for p in b0], enc).encode('ascii')
+        env = make_environ('/h', 'POST', body=data, stream=_framed(data, framing), chunked=chunked,
+                           content_type='application/x-www-form-urlencoded')
+    if q0 is None:
+        del env['QUERY_STRING']
+    else:
+        env['QUERY_STRING'] = encode([tuple(p) for p in q0], enc)
+    state = dict(q=[tuple(p) for p in (q0 or [])], b=[tuple(p) for p in (b0 or [])])
+    out = {}
+
+    def names():
+        own = ('query', 'GET') if what == 'hq' else ('forms', 'POST')
+        return {'own': own, 'params': ('params',), 'all': ('params',) + own + ('query', 'forms')}[case['reads']]
+
+    def play(req):
+        for step, op in enumerate(case['ops']):
+            if op[0] == 'read':
+                for name in names():
+                    if name in ('query', 'GET'):
+                        exp = fold(state['q'])
+                    elif name in ('forms', 'POST'):
+                        exp = fold(state['b'])
+                    else:
+                        eq, eb = fold(state['q']), fold(state['b'])
+                        if set(eq) & set(eb):
+                            continue
+                        exp = dict(eq)
+                        exp.update(eb)
+                    obs = _snap(getattr(req, name))
+                    if not same_mapping(obs, exp):
+                        return fail('%s.%s' % (clause, name), step=step, expected=exp, observed=obs,
+                                    query_string=req.environ.get('QUERY_STRING', '<absent>'))
+            elif op[0] == 'setq':
+                state['q'] = [tuple(p) for p in op[1]]
+                req['QUERY_STRING'] = encode(state['q'], enc)
+            elif op[0] == 'delq':
+                state['q'] = []
+                del req['QUERY_STRING']
+            elif op[0] == 'setb':
+                state['b'] = [tuple(p) for p in op[1]]
+                data = encode(state['b'], enc).encode('ascii')
+                if 'CONTENT_TYPE' not in req.environ:
+                    req['CONTENT_TYPE'] = 'application/x-www-form-urlencoded'
+                if not chunked:
+                    req['CONTENT_LENGTH'] = str(len(data))
+                elif 'HTTP_TRANSFER_ENCODING' not in req.environ:
+                    req['HTTP_TRANSFER_ENCODING'] = 'chunked'
+                req['wsgi.input'] = _framed(data, framing)
+        return None
+
+    def guarded(req):
+        try:
+            out['f'] = play(req)
+        except BaseException as e:  # noqa
+            if _is_hang(e) or isinstance(e, (KeyboardInterrupt, SystemExit)):
+                raise
+            out['f'] = fail(clause + '.raised', exc=repr(e))
+        out['done'] = True
+
+    try:
+        if case['level'] == 'bare':
+            guarded(Request(env))
+        else:
+            app = ombott.Ombott()
+
+            @app.route('/h', method=['GET', 'POST'])
+            def h():
+                guarded(app.request)
+                return 'ok'
+            res = serve(app, env)
+            if not out.get('done') or res.code != 200:
+                return fail(clause + '.status', status=res.status, errors=res.errors[-400:])
+    except BaseException as e:  # noqa
+        if _is_hang(e):
+            return fail('T1.hang', where=what)
+        raise
+    return out['f']
 
 
 def _snap(d):
